@@ -11,11 +11,17 @@ ops (state = the current index, set by `idx`):
   pwalk <n> <asc|desc> <total>           ptt-level client loop (LoadGeneralArticles + FindArticleStartIdx)
   walk <n> <asc|desc> <cached>           bbs.LoadGeneralArticles client loop
   ser <namehex> | deser <hex>
+  history ops on the cached total (state: names, cached; `idx` sets cached := len):
+  setcached <n> | list | append <namehex> | post <namehex> | findlast <asc|desc>
+  pwalk/walk with `cur` as last argument use (and may refresh) the cached total of the state
 -/
 
 structure St where
   names : List Name := []
   idx : Index := []
+  cached : Int := 0
+  logLen : Nat := 0        -- ALLPOST: records of its .DIR (emptied by `idx`)
+  logCached : Int := 0     -- ALLPOST: cached total
 
 def parseNames (s : String) : Option (List Name) :=
   if s = "-" then some []
@@ -65,7 +71,7 @@ def stepC06 (st : St) (ws : List String) : St × String :=
   | ["idx", s] => match parseNames s with
       | some ns =>
         let idx := ns.map absEntry
-        ({ names := ns, idx := idx }, s!"n={ns.length} {showTimes idx}")
+        ({ names := ns, idx := idx, cached := ns.length, logLen := 0, logCached := 0 }, s!"n={ns.length} {showTimes idx}")
       | none => (st, "bad-op")
   | ["find", tot, ct, nm, d] =>
       match tot.toInt?, ct.toInt?, parseDir d with
@@ -87,11 +93,55 @@ def stepC06 (st : St) (ws : List String) : St × String :=
         (st, showR (fun l => "ok " ++ (if l.isEmpty then "-" else
             ",".intercalate (l.map fun (p : Int × Entry) => s!"{p.1}:{toHex p.2.key}"))) (getRecords st.idx s n d))
       | _, _, _ => (st, "bad-op")
+  | ["setcached", c] => match c.toInt? with
+      | some c => ({ st with cached := c }, s!"total={c}")
+      | none => (st, "bad-op")
+  | ["list"] =>
+      let (_, c) := getBTotalWithRetry st.names st.cached
+      ({ st with cached := c }, s!"total={c}")
+  | ["append", nm] => match parseHex nm with
+      | some b =>
+        let (ns, c) := appendOnly st.names st.cached (copyInto 28 b)
+        ({ st with names := ns, idx := ns.map absEntry, cached := c }, s!"len={ns.length} total={c}")
+      | none => (st, "bad-op")
+  | ["reload"] =>
+      ({ st with cached := reloadTotal st.cached, logCached := reloadTotal st.logCached }, "total=0 allpost=0")
+  | ["post", nm] => match parseHex nm with
+      | some b =>
+        let (r, ns, c) := postArticle st.names st.cached (copyInto 28 b)
+        match r with
+        | .ok _ =>
+          let (ll, lc) := logCopy st.logLen st.logCached
+          ({ names := ns, idx := ns.map absEntry, cached := c, logLen := ll, logCached := lc },
+            s!"len={ns.length} total={c} allpost={ll}:{lc}")
+        | .error e => ({ st with names := ns, idx := ns.map absEntry, cached := c }, toString e)
+      | none => (st, "bad-op")
+  | ["findlast", d] => match parseDir d with
+      | some d =>
+        let (r, c) := findNewest st.names st.cached d
+        ({ st with cached := c }, showR (fun i => s!"ok {i}") r)
+      | none => (st, "bad-op")
+  | ["pwalk", n, d, "cur"] =>
+      match n.toNat?, parseDir d with
+      | some n, some d =>
+        match getBTotalWithRetry st.names st.cached with
+        | (.error e, c) => ({ st with cached := c }, "- " ++ toString e)
+        | (.ok tot, c) =>
+          let (ps, fin) := pwalk st.idx tot n d (2 * st.idx.length + 4) (if d then 0 else 1)
+          ({ st with cached := c }, (if ps.isEmpty then "-" else showPages ps) ++ " " ++ fin)
+      | _, _ => (st, "bad-op")
+  | ["walk", n, d, "cur"] =>
+      match n.toInt?, parseDir d with
+      | some n, some d =>
+        let (ps, fin) := bbsWalk st.names n d (2 * st.names.length + 4) st.cached []
+        let c := if n < 1 then st.cached else (getBTotalWithRetry st.names st.cached).2
+        ({ st with cached := c }, (if ps.isEmpty then "-" else "|".intercalate (ps.map showBbsPage)) ++ " " ++ fin)
+      | _, _ => (st, "bad-op")
   | ["pwalk", n, d, tot] =>
       match n.toNat?, parseDir d, tot.toInt? with
       | some n, some d, some tot =>
         let (ps, fin) := pwalk st.idx tot n d (2 * st.idx.length + 4) (if d then 0 else 1)
-        (st, showPages ps ++ " " ++ fin)
+        (st, (if ps.isEmpty then "-" else showPages ps) ++ " " ++ fin)
       | _, _, _ => (st, "bad-op")
   | ["walk", n, d, c] =>
       match n.toInt?, parseDir d, c.toInt? with
